@@ -61,6 +61,7 @@ type KnownFindings struct {
 
 // Finding is one recorded defect (open) or repaired defect (fixed).
 type Finding struct {
+	ID         string `json:"id,omitempty"`
 	Status     string `json:"status"` // open | fixed
 	Property   string `json:"property"`
 	Obligation string `json:"obligation"`
@@ -119,9 +120,9 @@ func checkCmd(args []string) {
 
 	work, _ := os.MkdirTemp("", "gvc-"+*prop+"-")
 	defer os.RemoveAll(work)
-	scfg := eng.SolverConfig{WorkDir: work, TimeoutS: 30, Parallel: 16}
+	scfg := eng.SolverConfig{WorkDir: work, TimeoutS: 45, Parallel: 16}
 	if *tier == "thorough" {
-		scfg.TimeoutS = 60
+		scfg.TimeoutS = 90
 		scfg.Confirm = true
 	}
 
@@ -373,7 +374,15 @@ func checkCmd(args []string) {
 		}
 		c := exec.Command("bash", "-c", cmdline)
 		c.Dir = root
-		c.Env = append(os.Environ(), "GVC_PROP="+*prop, "GVC_TIER="+*tier)
+		// the open known findings of the property (ids from the committed known_findings.json):
+		// a bounded check accepts exactly the inputs of those findings and fails on any other
+		var knownIDs []string
+		for _, f := range kf.Findings {
+			if f.Property == *prop && f.Status == "open" && f.ID != "" {
+				knownIDs = append(knownIDs, f.ID)
+			}
+		}
+		c.Env = append(os.Environ(), "GVC_PROP="+*prop, "GVC_TIER="+*tier, "GVC_KNOWN="+strings.Join(knownIDs, ","))
 		out, err := c.CombinedOutput()
 		ec := 0
 		if err != nil {
@@ -383,16 +392,8 @@ func checkCmd(args []string) {
 		if ec != 0 {
 			rp := filepath.Join(root, "replays", *prop, "bounded_"+sanitizeName(b.Name)+".json")
 			writeJSON(rp, map[string]interface{}{"property": *prop, "bounded_check": b.Name, "bound": b.Bound, "output": truncate(string(out), 8000)})
-			known := false
-			for _, f := range kf.Findings {
-				if f.Property == *prop && f.Status == "open" && f.Obligation == "bounded:"+b.Name {
-					known = true
-				}
-			}
-			if !known {
-				violLines = append(violLines, fmt.Sprintf("VIOLATION property=%s replay=%s bounded=%s", *prop, rp, b.Name))
-				exit = 1
-			}
+			violLines = append(violLines, fmt.Sprintf("VIOLATION property=%s replay=%s bounded=%s", *prop, rp, b.Name))
+			exit = 1
 		}
 	}
 
